@@ -113,6 +113,8 @@ def run(ctx):
 
     # the same life-cycle as a typestate over every function of the program (helpers, callers, code after the serving loop)
     sm.responder_typestate(ctx, W, "batch-lifecycle")
+    # ... and the queue the responses are numbered by holds exactly the leaves of that tree, in order
+    sm.queue_lockstep(ctx, W, "batch-lifecycle")
 
     # ------------------------------------------------------------------ send loop shape
     sr = ctx.fn(sm.SEND)
